@@ -441,7 +441,68 @@ func (g *gcase) prelude(kind int) {
 	}
 }
 
+// fanCase: a key that is a prefix of N others that differ in the next byte, N at a node-size threshold of the
+// radix tree (4/5, 16/17, 48/49); then entries are removed across the threshold (Map.Delete, Set.Delete,
+// Set.Difference) and added again: the prefix key's own entry lives on the inner node that changes its kind
+func fanCase(r *hx.Rand, N int, out *hx.Out) {
+	out.P("#case hfan%d", N)
+	perm := r.Perm(256)
+	base := fmt.Sprintf("%02x", perm[N+1])
+	keys := []string{base}
+	for i := 0; i < N; i++ {
+		keys = append(keys, base+fmt.Sprintf("%02x", perm[i]))
+	}
+	g := &gcase{r: r, out: out, keys: keys,
+		shM: map[int]map[string]int{}, shS: map[int]map[string]int{}, shT: map[int]map[string]int{}}
+	// a map and a set holding all of them
+	var sb strings.Builder
+	shm, shs := map[string]int{}, map[string]int{}
+	for _, k := range keys {
+		v := g.v()
+		shm[k] = v
+		fmt.Fprintf(&sb, " %s %d", k, v)
+	}
+	m := g.id()
+	g.emit("mfrom %d 0%s", m, sb.String())
+	g.shM[m] = shm
+	g.maps = append(g.maps, m)
+	sb.Reset()
+	for _, k := range keys {
+		v := g.v()
+		shs[k] = v
+		fmt.Fprintf(&sb, " %s %d", k, v)
+	}
+	st := g.id()
+	g.emit("snew %d%s", st, sb.String())
+	g.newS(st, shs)
+	// across the threshold and back
+	m1 := g.mdel(m, keys[1+r.Intn(N)])
+	m2 := g.mdel(m1, g.keyOf(g.shM[m1]))
+	g.mset(m2, base+fmt.Sprintf("%02x", perm[N+2]))
+	g.mset(m1, base)
+	d := g.id()
+	k := keys[1+r.Intn(N)]
+	g.emit("sdel %d %d %s", d, st, k)
+	sh := cpS(g.shS[st])
+	delete(sh, k)
+	g.newS(d, sh)
+	one := g.id()
+	v := g.v()
+	k2 := keys[1+r.Intn(N)]
+	g.emit("snew %d %s %d", one, k2, v)
+	g.newS(one, map[string]int{k2: v})
+	df := g.id()
+	g.emit("sdiff %d %d %d", df, st, one)
+	sh = cpS(g.shS[st])
+	delete(sh, k2)
+	g.newS(df, sh)
+	g.emit("eqall")
+}
+
 func (*eng) Gen(r *hx.Rand, n int, tier string, prop string, out *hx.Out) {
+	for _, N := range []int{5, 17, 49} {
+		fanCase(r.Fork(), N, out)
+	}
 	for c := 0; c < n; c++ {
 		cr := r.Fork()
 		mode := "h"
